@@ -6,6 +6,9 @@
   destruction, never destroyed while visible — is an invariant of histories.
 -/
 import AnyVecModel.Proofs.Own
+import AnyVecModel.Proofs.KernelDropRange
+import AnyVecModel.Proofs.KernelTempDrop
+import AnyVecModel.Proofs.KernelClear
 import AnyVecModel.Props.Hist
 namespace AnyVec
 namespace C03
@@ -131,6 +134,43 @@ theorem history_single_owner_core (cfg : Cfg) (w : World) (hr : Hist.Reach cfg w
 theorem history_vectors_good_core (cfg : Cfg) (w : World) (hr : Hist.Reach cfg w) (v : Nat) (d : VecSt)
     (hv : w.vecs[v]? = some d) : d.WF ∧ d.Init :=
   ⟨((Hist.reach_inv_core cfg w hr).good v d hv).wf, ((Hist.reach_inv_core cfg w hr).good v d hv).init⟩
+
+/-! ### tie to the source text: who runs which destructor -/
+
+/-- **source tie**: the destructor calls of the model are those of `/repo/src/any_vec_ptr.rs drop_elements_range`,
+`/repo/src/ops/temp.rs impl Drop for TempValue` and `/repo/src/any_vec_raw.rs clear` as re-translated on this run:
+a range is destroyed by one erased `drop_fn(ptr(start), end - start)` or one typed slice drop - each element of
+`[start, end)` once, none outside; a dropped removal handle destroys exactly its own slot and only then lets the
+operation compact the vector; `clear` hides all elements (`len := 0`) before it destroys `[0, len)`. -/
+theorem destructor_calls_are_the_source (cfg : Cfg) (w : World) (v : Nat) (typed : Bool) (s e : Nat) (d : VecSt)
+    (hv : w.vecs[v]? = some d) (hl : d.live = true) (h : Handle) (hh : h.v = v) :
+    dropRange v typed s e w =
+      (match Gen.Kernel.drop_elements_range_cmds s e typed d.hasDrop d.hasDrop with
+       | [] => dropLoop v false s (e - s)
+       | cmds => KernelTie.runCmds { v := v, typed := typed } cmds) w ∧
+    hDrop h w =
+      (do let slot ← hSlot h
+          if h.typed || d.hasDrop then
+            KernelTie.runCmds (KernelTie.hCtx h) (Gen.Kernel.temp_drop_cmds slot h.typed d.hasDrop)
+          else do
+            let id ← readElem h.v slot
+            dropElem false id
+            KernelTie.runCmds (KernelTie.hCtx h) (Gen.Kernel.temp_drop_cmds slot h.typed d.hasDrop)) w ∧
+    step cfg (.clear v) w =
+      (do KernelTie.runCmds { v := v } (Gen.Kernel.clear_cmds d.len d.hasDrop)
+          if d.hasDrop then pure () else dropLoop v false 0 d.len
+          pure [] : WM Out) w :=
+  ⟨KernelTie.dropRange_tie w v typed s e d hv hl, KernelTie.temp_drop_tie w h d (by rw [hh]; exact hv) hl,
+   KernelTie.clear_tie cfg w v d hv hl⟩
+
+/-- **source tie**: while a removal handle lives, its element is out of its vector's reach: the constructors
+`Pop::new` / `Remove::new` / `SwapRemove::new` of `/repo/src/ops/*.rs` (re-translated on this run) lower `len` to the
+removed slot's index (or below it), so the destructor the handle runs never acts on an element the vector shows. -/
+theorem removed_element_is_out_of_reach_is_the_source (len index : Nat) (hi : index < len) :
+    (∃ l, Gen.Kernel.pop_new len = .ok (.made l []) ∧ l ≤ len - 1) ∧
+    (∃ l last, Gen.Kernel.remove_new len index = .ok (.made l [index, last]) ∧ l ≤ index) ∧
+    (∃ l last, Gen.Kernel.swap_remove_new len index = .ok (.made l [index, last]) ∧ l ≤ index) :=
+  ⟨⟨len - 1, rfl, Nat.le_refl _⟩, ⟨index, len - 1, rfl, Nat.le_refl _⟩, ⟨index, len - 1, rfl, Nat.le_refl _⟩⟩
 
 end C03
 end AnyVec
